@@ -1,3 +1,3 @@
-CONSTANTS Scope = "full" OneByOne = FALSE Mutant = "none"
+CONSTANTS Scope = "full" OneByOne = FALSE Mutant = "none" Pick = {}
 SPECIFICATION Spec
 INVARIANT Emit
